@@ -146,7 +146,7 @@ def gen_model(rng, near_tie=False, big=False):
     const = F(0) if rng.random() < (0.8 if gap == 0 else 0.5) else F(rng.randint(5, 60), 10)
     limit = rng.choice([None, None, None, None, 1, 2, 3, 0])
     return {"nb": nb, "eq": eq, "rows": rows, "prods": prods, "obj": obj, "abs": abs_c, "const": const, "gap": gap, "limit": limit,
-            "near_tie": near_tie}
+            "near_tie": near_tie, "swap_names": rng.random() < 0.35}
 
 
 def to_json(c):
@@ -215,12 +215,16 @@ def exact_table(c):
 # ------------------------------------------------------------------------------------------------------------------
 def build_impl(c, lpi):
     m = lpi.model("c05", "cbc")
-    B = [m.addVar(vtype="B", name=f"B_{i}") for i in range(c["nb"])]
+    # naming scheme of this model: with swap_names the binaries are called E_i and the error terms B_j.  Models are built one after
+    # another in one process, so a name used for a binary in one model is used for a continuous variable in the next one
+    # (the interface must not carry anything over from one model to the next)
+    pB, pE = ("E", "B") if c.get("swap_names") else ("B", "E")
+    B = [m.addVar(vtype="B", name=f"{pB}_{i}") for i in range(c["nb"])]
     E = []
     for j, e in enumerate(c["eq"]):
         lb = -m.INF if e["lb"] is None else float(e["lb"])
         ub = m.INF if e["ub"] is None else float(e["ub"])
-        E.append(m.addVar(lb=lb, ub=ub, name=f"E_{j}"))
+        E.append(m.addVar(lb=lb, ub=ub, name=f"{pE}_{j}"))
     for j, e in enumerate(c["eq"]):
         expr = m.quicksum(float(x) * B[i] for i, x in e["co"]) + float(e["ce"]) * E[j]
         m.addConstr(expr <= float(e["cov"]), name=f"CCOV_{j}")     # as cn.py/major.py/minor.py: a <= / >= pair
@@ -233,8 +237,8 @@ def build_impl(c, lpi):
             m.addConstr(expr >= float(r["rhs"]), name=f"CROW_{k}")
     for p in c["prods"]:
         m.prod(B[p["res"]], [B[t] for t in p["ts"]])
-    coeffs = {f"E_{j}": float(x) for j, x in c["abs"].items()}
-    coeffs["E_999"] = 7.0                                           # a name that is not a term: must be ignored
+    coeffs = {f"{pE}_{j}": float(x) for j, x in c["abs"].items()}
+    coeffs[f"{pE}_999"] = 7.0                                           # a name that is not a term: must be ignored
     o = m.quicksum(float(x) * B[i] for i, x in c["obj"]) + m.abssum(E, coeffs=coeffs)
     if c["const"] != 0:
         o = o + float(c["const"])
@@ -256,7 +260,20 @@ def run_impl(c):
             if len(ys) >= cap:
                 runaway = True
                 break
-    return {"yields": ys, "snap": rec.models[0], "runaway": runaway}
+    snap = rec.models[0]
+    if c.get("swap_names"):
+        # back to the canonical names (B = binaries, E = error terms) before anything is compared
+        def f(n):
+            if n.startswith("ABS_"):
+                return "ABS_" + f(n[4:])
+            t, i = n.split("_", 1)
+            return {"B": "E", "E": "B"}.get(t, t) + "_" + i
+        ys = [(obj, tuple(f(n) for n in names), {f(k): v for k, v in vals.items()}, st) for obj, names, vals, st in ys]
+        snap.vars = [(f(n), k, lb, ub) for n, k, lb, ub in snap.vars]
+        snap.rows = [({f(n): x for n, x in co.items()}, lb, ub, nm) for co, lb, ub, nm in snap.rows]
+        snap.cuts = [({f(n): x for n, x in co.items()}, lb, ub) for co, lb, ub in snap.cuts]
+        snap.obj = {f(n): x for n, x in snap.obj.items()}
+    return {"yields": ys, "snap": snap, "runaway": runaway}
 
 
 # ------------------------------------------------------------------------------------------------------------------
